@@ -223,7 +223,10 @@ func CheckStreams(run *report.Run, p PropSpec, streams []StreamSpec) error {
 			}
 			wfOK := !p.NeedWF || c.Spec["WF"] == "1"
 			if p.SpecKey != "" && wfOK && c.Spec[p.SpecKey] == "0" {
-				if id := knownOf(p, c); id != "" {
+				// a listed finding is one the model reproduces: the shared outcome falsifies the predicate.
+				// A predicate failure inside a class on which model and implementation DIFFER is a
+				// different defect that merely lands in the same class, and is reported.
+				if id := knownOf(p, c); id != "" && p.Proj(c.RealS) == p.Proj(c.ModelS) {
 					run.KnownHits[id]++
 				} else if specFail < 3 {
 					specFail++
@@ -258,7 +261,7 @@ func knownOf(p PropSpec, c *Case) string {
 func reportSpecFailure(run *report.Run, p PropSpec, c *Case) {
 	cfg, req := Shrink(*c.Cfg, c.Req, func(cf *Config, r Req) bool {
 		o, err := One(cf, r)
-		return err == nil && (!p.NeedWF || o.Spec["WF"] == "1") && o.Spec[p.SpecKey] == "0" && knownOf(p, o) == ""
+		return err == nil && (!p.NeedWF || o.Spec["WF"] == "1") && o.Spec[p.SpecKey] == "0" && (knownOf(p, o) == "" || p.Proj(o.RealS) != p.Proj(o.ModelS))
 	})
 	o, err := One(&cfg, req)
 	if err != nil || o.Spec[p.SpecKey] != "0" {
